@@ -133,6 +133,9 @@ impl Ctx {
 struct Parked {
     readers: Vec<StreamReader>,
     writers: Vec<StreamWriter>,
+    /// writer of this side's own second bidirectional stream (nobody reads it): one byte written on it makes
+    /// this side send a 1-RTT packet
+    own_bidi1: Option<StreamWriter>,
 }
 
 fn client_ops(ctx: &Ctx, conn: Arc<Connection>, side: &'static str, parked: Arc<Mutex<Parked>>, later: bool) {
@@ -255,7 +258,11 @@ fn client_ops(ctx: &Ctx, conn: Arc<Connection>, side: &'static str, parked: Arc<
                     Ok(Some((sid, (r, w)))) => {
                         let mut g = p.lock().unwrap();
                         g.readers.push(r);
-                        g.writers.push(w);
+                        if g.own_bidi1.is_none() {
+                            g.own_bidi1 = Some(w);
+                        } else {
+                            g.writers.push(w);
+                        }
                         last = format!("opened {sid:?}");
                     }
                     Ok(None) => return R::Ok("stream ids exhausted".into()),
@@ -310,15 +317,46 @@ fn client_ops(ctx: &Ctx, conn: Arc<Connection>, side: &'static str, parked: Arc<
     }
 }
 
+/// id of the peer-initiated bidirectional stream (index 1) on which the scenario creates a "final size known,
+/// earlier bytes missing" state at the side `side`
+fn gap_stream_id(side: &str) -> u64 {
+    if side == "C" { 5 } else { 4 }
+}
+
+/// STREAM frame (OFF|LEN|FIN) carrying bytes 10..15 and the FIN of stream `id`
+fn gap_fin_frame(id: u8) -> Vec<u8> {
+    vec![0x0f, id, 10, 5, b'v', b'w', b'x', b'y', b'z']
+}
+
 /// accept loops that park what they accept (never read): the last accept of each kind stays pending
 fn accept_ops(ctx: &Ctx, conn: Arc<Connection>, side: &'static str, parked: Arc<Mutex<Parked>>, later: bool) {
     {
         let c = conn.clone();
         let p = parked.clone();
+        let ctx2 = ctx.clone();
         ctx.track(&format!("{side}.accept_bi"), later, async move {
             loop {
                 match c.accept_bi_stream().await {
-                    Ok((_sid, (r, w))) => {
+                    Ok((sid, (mut r, w))) => {
+                        let key: u64 = sid.into();
+                        if key == gap_stream_id(side) {
+                            // the peer's second bidirectional stream: the scenario has put its last bytes and
+                            // its FIN on the wire but not the bytes before them, so the final size is known
+                            // while data is missing - a read on it stays pending until the connection ends
+                            p.lock().unwrap().writers.push(w);
+                            ctx2.track(&format!("{side}.read_gap_before_fin"), later, async move {
+                                let mut buf = [0u8; 64];
+                                let mut total = 0;
+                                loop {
+                                    match r.read(&mut buf).await {
+                                        Ok(0) => return R::Ok(format!("end of stream after {total} bytes although bytes are missing")),
+                                        Ok(n) => total += n,
+                                        Err(e) => return from_io_err(&e),
+                                    }
+                                }
+                            });
+                            continue;
+                        }
                         let mut g = p.lock().unwrap();
                         g.readers.push(r);
                         g.writers.push(w);
@@ -474,7 +512,21 @@ fn run_case(case: &Case) -> Run {
         match case.phase.as_str() {
             "pre" => {}
             "mid" => tokio::time::sleep(lat + lat / 2).await,
-            _ => tokio::time::sleep(lat * 12 + Duration::from_millis(400)).await,
+            _ => {
+                tokio::time::sleep(lat * 12 + Duration::from_millis(200)).await;
+                // both sides: bytes 10..15 + FIN of the peer's second bidirectional stream arrive, bytes 1..10 never do
+                // (hook H3 puts the frame into the next 1-RTT packet; one real byte at offset 0 makes sure there is one)
+                qconnection::verif::inject_raw_frames(Role::Server, gap_fin_frame(5));
+                qconnection::verif::inject_raw_frames(Role::Client, gap_fin_frame(4));
+                for parked in [&sparked, &cparked] {
+                    let wr = parked.lock().unwrap().own_bidi1.take();
+                    if let Some(mut wr) = wr {
+                        let _ = tokio::time::timeout(Duration::from_millis(50), wr.write_all(b"u")).await;
+                        parked.lock().unwrap().writers.push(wr);
+                    }
+                }
+                tokio::time::sleep(Duration::from_millis(200)).await;
+            }
         }
         let t = ctx.now();
         {
@@ -683,6 +735,9 @@ fn judge(rep: &mut Report, case: &Case, run: &Run) {
                 (Some(_), _) => {
                     rep.count(if o.later { "later_ops_failed_at_once" } else { "pending_ops_resolved_with_error" });
                     rep.set("op_kinds_resolved", vcore::fnv_str(&format!("{}:{}", opname.trim_start_matches(['C', 'S']), case.trigger)));
+                    if opname.ends_with("read_gap_before_fin") && !o.later {
+                        rep.count("pending_reads_with_known_final_size_and_gap_resolved");
+                    }
                     if let (Some(k), Some(tk)) = (&o.kind, &t0.kind) {
                         if k != tk {
                             rep.violation(
